@@ -125,6 +125,17 @@ func init() {
 				}
 				sort.Strings(names)
 				for _, h := range names {
+					if h == "Others" {
+						host, uri, m := "good.example.com", "/open/y", "GET"
+						if vpS(hm, h) == "hostile" {
+							host, uri, m = "evil.com", "/oauth2/sign_in", "OPTIONS"
+						}
+						with.Header = append(with.Header, [2]string{"X-Forwarded-Method", m}, [2]string{"X-Forwarded-Port", "8443"}, [2]string{"X-Forwarded-Prefix", "/open"},
+							[2]string{"X-Forwarded-Server", host}, [2]string{"X-Forwarded-Scheme", "https"}, [2]string{"X-Forwarded-Ssl", "on"},
+							[2]string{"X-Original-Url", uri}, [2]string{"X-Rewrite-Url", uri},
+							[2]string{"Forwarded", "for=198.51.100.7;host=" + host + ";proto=https"})
+						continue
+					}
 					with.Header = append(with.Header, [2]string{h, vpFwdValues[vpS(hm, h)]})
 				}
 				r0 := w.do(base)
